@@ -27,7 +27,8 @@ Definition may_call (o : op) (fk : fkind) : bool :=
     | OFill _ | OFillWith | OFillSpare _
     | OIntoIter _ | ONew | OFromArray _ | OFromIter _
     | OCloneDropClone | OCloneKeepClone | OCloneFrom _
-    | OWrite _ _ | ORead _ _ | OConsume _ _ => true
+    | OWrite _ _ | ORead _ _ | OConsume _ _
+    | OBoxed | ODefault | ODrainDebug _ _ _ | OIntoIterDebug _ => true
     (* a forgotten Drain destroys nothing *)
     | ODrain _ _ _ forget => negb forget
     (* OFillSpareWith: false. push_back never evicts while size < N.
@@ -47,7 +48,11 @@ Definition may_call (o : op) (fk : fkind) : bool :=
   | FEq => match o with OEq _ | OEqSlice _ _ => true | _ => false end
   | FCmp => match o with OPartialCmp _ | OCmp _ => true | _ => false end
   | FHash => match o with OHash => true | _ => false end
-  | FFmt => match o with ODebug => true | _ => false end
+  | FFmt =>
+    match o with
+    | ODebug | OIterDebug _ _ _ | OIterMutDebug _ _ _ | ODrainDebug _ _ _ | OIntoIterDebug _ => true
+    | _ => false
+    end
   end.
 
 (* ---- the closure predicate ------------------------------------------------------ *)
@@ -257,6 +262,10 @@ Proof. unfold add_mod. blind_tac. Qed.
 Lemma blind_sub_mod fk x y m : blind fk (sub_mod x y m).
 Proof. unfold sub_mod. blind_tac. Qed.
 #[local] Hint Resolve blind_sub_mod : blind.
+
+Lemma blind_boxed fk n junk : blind fk (boxed n junk).
+Proof. unfold boxed. blind_tac. Qed.
+#[local] Hint Resolve blind_boxed : blind.
 
 Lemma blind_is_empty fk : blind fk is_empty. Proof. unfold is_empty. blind_tac. Qed.
 Lemma blind_is_full fk : blind fk is_full. Proof. unfold is_full. blind_tac. Qed.
@@ -530,6 +539,22 @@ Proof.
   intros. unfold buf_fmt. blind_tac. apply blind_iter_for_each. intros. blind_tac.
 Qed.
 #[local] Hint Resolve blind_buf_hash blind_buf_fmt : blind.
+
+(* IntoIterator for &CircularBuffer, Debug for Iter / IterMut / Drain / IntoIter *)
+Lemma blind_ref_into_iter fk : blind fk ref_into_iter.
+Proof. exact (blind_iter_new fk). Qed.
+Lemma blind_iter_fmt fk it : fkind_eqb FFmt fk = false -> blind fk (iter_fmt it).
+Proof.
+  intros. unfold iter_fmt. blind_tac. apply blind_iter_for_each. intros. blind_tac.
+Qed.
+#[local] Hint Resolve blind_ref_into_iter blind_iter_fmt : blind.
+Lemma blind_iter_mut_fmt fk it : fkind_eqb FFmt fk = false -> blind fk (iter_mut_fmt it).
+Proof. intros. unfold iter_mut_fmt. blind_tac. Qed.
+Lemma blind_drain_fmt fk d : fkind_eqb FFmt fk = false -> blind fk (drain_fmt d).
+Proof. intros. unfold drain_fmt. blind_tac. Qed.
+Lemma blind_into_iter_fmt fk : fkind_eqb FFmt fk = false -> blind fk into_iter_fmt.
+Proof. exact (blind_buf_fmt fk). Qed.
+#[local] Hint Resolve blind_iter_mut_fmt blind_drain_fmt blind_into_iter_fmt : blind.
 
 Lemma blind_cloned_for_each fk src body :
   fkind_eqb FClone fk = false -> (forall e, blind fk (body e)) ->
@@ -837,7 +862,11 @@ Definition tight_cases : list (op * fkind * cbuf) :=
     (OExtend [e], FNext, tight_full); (OFromIter [e], FNext, tight_full);
     (OEq tight_full, FEq, tight_full); (OEqSlice EqSlice [e; e; e; e], FEq, tight_full);
     (OPartialCmp tight_full, FCmp, tight_full); (OCmp tight_full, FCmp, tight_full);
-    (OHash, FHash, tight_full); (ODebug, FFmt, tight_full) ].
+    (OHash, FHash, tight_full); (ODebug, FFmt, tight_full);
+    (OBoxed, FDrop, tight_full); (ODefault, FDrop, tight_full);
+    (ODrainDebug BUnb BUnb [], FDrop, tight_full); (OIntoIterDebug [], FDrop, tight_full);
+    (OIterDebug BUnb BUnb [], FFmt, tight_full); (OIterMutDebug BUnb BUnb [], FFmt, tight_full);
+    (ODrainDebug BUnb BUnb [], FFmt, tight_full); (OIntoIterDebug [], FFmt, tight_full) ].
 
 Definition is_user_panic {A} (r : outcome A) : bool :=
   match r with Panic PUser => true | _ => false end.
